@@ -1,9 +1,11 @@
 (* Pinned statements for C03: compiled on every check run. A statement weakened in Props/ fails here. *)
 From Coq Require Import String List Bool.
 From TS Require Import Model.Str Model.Outcome Model.Unicode Model.Syntax Model.Attrs Model.Types Model.Parse
-                       Model.Lang.Common Model.Lang.Decl Model.Lang.TypeScript.
+                       Model.Lang.Common Model.Lang.Decl Model.Lang.TypeScript Model.Lang.Kotlin Model.Lang.Swift
+                       Model.Lang.Scala Model.Lang.Go Model.Lang.Python.
 From TS Require Import Spec.Serde Spec.TargetOsRule Spec.C03Spec.
-From TS Require Proofs.FrontItems Proofs.C03 Proofs.C03_TS.
+From TS Require Proofs.FrontItems Proofs.C03 Proofs.C03_TS Proofs.C03_Kotlin Proofs.C03_Swift Proofs.C03_Scala Proofs.C03_Go
+                Proofs.C03_Python Proofs.C03_Witness.
 Import ListNotations.
 Definition parse_leaf (uc : unicode) (tstr : str -> option ty) (T : list str) (it : item) : outcome ritem :=
   match it with
@@ -82,3 +84,54 @@ Goal forall (uc : unicode) (cfg : ts_config) (pd : parsed) (fd : file_decls),
   ts_file_decls uc cfg pd = Ok fd -> good_C03_file TypeScript pd fd = true.
 Proof. exact Props.C03.C03_back_TypeScript. Qed.
 Print Assumptions Props.C03.C03_back_TypeScript.
+Goal forall (cfg : kt_config) (it : ritem) ds,
+  kt_decl_of cfg it = Ok ds -> dom_C03_item it = true -> good_C03_item Kotlin it (map kt_obs ds) = true.
+Proof. exact Props.C03.C03_item_Kotlin. Qed.
+Print Assumptions Props.C03.C03_item_Kotlin.
+Goal forall (uc : unicode) (cfg : kt_config) (pd : parsed) (fd : file_decls),
+  kt_file_decls uc cfg pd = Ok fd -> dom_C03_file pd = true -> good_C03_file Kotlin pd fd = true.
+Proof. exact Props.C03.C03_back_Kotlin. Qed.
+Print Assumptions Props.C03.C03_back_Kotlin.
+Goal forall (uc : unicode) (cfg : sw_config) (it : ritem) st d st',
+  sw_decl_of uc cfg it st = Ok (d, st') -> dom_C03_item it = true -> good_C03_item Swift it (sw_obs d) = true.
+Proof. exact Props.C03.C03_item_Swift. Qed.
+Print Assumptions Props.C03.C03_item_Swift.
+Goal forall (uc : unicode) (cfg : sw_config) (pd : parsed) (fd : file_decls),
+  sw_file_decls uc cfg pd = Ok fd -> dom_C03_file pd = true -> good_C03_file Swift pd fd = true.
+Proof. exact Props.C03.C03_back_Swift. Qed.
+Print Assumptions Props.C03.C03_back_Swift.
+Goal forall (cfg : sc_config) (it : ritem) ds,
+  sc_decl_of cfg it = Ok ds -> dom_C03_item it = true -> good_C03_item Scala it (flat_map sc_obs ds) = true.
+Proof. exact Props.C03.C03_item_Scala. Qed.
+Print Assumptions Props.C03.C03_item_Scala.
+Goal forall (uc : unicode) (cfg : sc_config) (pd : parsed) (fd : file_decls),
+  sc_file_decls uc cfg pd = Ok fd -> dom_C03_file pd = true -> known_C03_file uc Scala pd = None ->
+  good_C03_file Scala pd fd = true.
+Proof. exact Props.C03.C03_back_Scala. Qed.
+Print Assumptions Props.C03.C03_back_Scala.
+Goal exists pd fd, dom_C03_file pd = true /\ known_C03_file uc_exec Scala pd = Some "C03-scala-const"%string /\
+                sc_file_decls uc_exec Proofs.C03_Witness.c03_sc_cfg pd = Ok fd /\ good_C03_file Scala pd fd = false.
+Proof. exact Props.C03.C03_scala_const_refuted. Qed.
+Print Assumptions Props.C03.C03_scala_const_refuted.
+Goal forall (uc : unicode) (cfg : go_config) (custom_structs : list str) (it : ritem) st ds st',
+  go_decl_of uc cfg custom_structs it st = Ok (ds, st') -> good_C03_item Go it (flat_map go_obs ds) = true.
+Proof. exact Props.C03.C03_item_Go. Qed.
+Print Assumptions Props.C03.C03_item_Go.
+Goal forall (uc : unicode) (cfg : go_config) (pd : parsed) (fd : file_decls),
+  go_file_decls uc cfg pd = Ok fd -> good_C03_file Go pd fd = true.
+Proof. exact Props.C03.C03_back_Go. Qed.
+Print Assumptions Props.C03.C03_back_Go.
+Goal forall (uc : unicode) (cfg : py_config) (it : ritem) st ds st',
+  py_decl_of uc cfg it st = Ok (ds, st') -> dom_C03_item it = true -> known_C03_item uc Python it = None ->
+  good_C03_item Python it (flat_map py_obs ds) = true.
+Proof. exact Props.C03.C03_item_Python. Qed.
+Print Assumptions Props.C03.C03_item_Python.
+Goal forall (uc : unicode) (cfg : py_config) (pd : parsed) (fd : file_decls),
+  py_file_decls uc cfg pd = Ok fd -> dom_C03_file pd = true -> known_C03_file uc Python pd = None ->
+  good_C03_file Python pd fd = true.
+Proof. exact Props.C03.C03_back_Python. Qed.
+Print Assumptions Props.C03.C03_back_Python.
+Goal exists pd fd, dom_C03_file pd = true /\ known_C03_file uc_exec Python pd = Some "C03-python-typekey-collision"%string /\
+                py_file_decls uc_exec Proofs.C03_Witness.c03_py_cfg pd = Ok fd /\ good_C03_file Python pd fd = false.
+Proof. exact Props.C03.C03_python_typekey_collision_refuted. Qed.
+Print Assumptions Props.C03.C03_python_typekey_collision_refuted.
